@@ -247,7 +247,8 @@ func (op Divf16) Op_instruction_internal_state(arch *Arch, flavor string) string
 }
 
 func (Op Divf16) Op_instruction_verilog_reset(arch *Arch, flavor string) string {
-	return ""
+	// Without a reset value the state register is undefined and the instruction never starts
+	return "\t\t\t" + "divider_" + arch.Tag + "_state <= #1 " + "divider_" + arch.Tag + "_put_a;\n"
 }
 
 func (Op Divf16) Op_instruction_verilog_default_state(arch *Arch, flavor string) string {
